@@ -307,7 +307,7 @@ func writeRecordConverters(w *formatting.IndentedWriter, t *dsl.RecordDefinition
 			w.Indented(func() {
 				fmt.Fprintf(w, "it->get_to(value.%s);\n", common.FieldIdentifierName(field.Name))
 			})
-			if dsl.TypeHasNullOption(field.Type) {
+			if underlying, ok := dsl.GetUnderlyingType(field.Type).(*dsl.GeneralizedType); ok && underlying.Dimensionality == nil && underlying.Cases.HasNullOption() {
 				// null fields are omitted by to_json: an absent field means null, not "keep what the destination held"
 				w.WriteStringln("} else {")
 				w.Indented(func() {
